@@ -15,11 +15,19 @@ def run(ctx):
         ctx.sample(scen, 1)
         trace = ctx.execute("objmodel", scen)
         ev, verdicts, rejected = ctx.validate("ObjectModel", "Trace_ObjectModel.tla", strict, trace, "objmodel", parallel=14, heap="4g")
+    # second sentence of the property: the services' methods that take an entity, an index or a name, with every kind of bad value
+    bad = ctx.gen("BadArgs", "Gen_BadArgs.tla", "Gen_BadArgs.cfg", "badargs", workers=2)
+    ctx.sample(bad, 2)
+    btrace = ctx.execute("badargs", bad, flavour="hooks" if ctx.quick else "asan", timeout_s=60)
+    ctx.validate("BadArgs", "Trace_BadArgs.tla", "Trace_BadArgs.cfg", btrace, "badargs", flavour="hooks" if ctx.quick else "asan", parallel=4)
     ctx.cov["distinct_nontrivial"] = ctx.cov["traces_validated_against_impl"]
     ctx.finish("model_checking",
                "every edge (state, command) of the reachable graph of the ObjectModel reference over projections of the universe "
                "{2 models, 3 components, 3 variables, 3 units, 2 resets; look-alike names}, each replayed on the real library from a fresh universe "
                "after the BFS-shortest history of its source state; plus every command of the alphabet with null / one-past-the-end / unknown-name "
-               "arguments in every state at depth <= 2; non-trivial = each scenario is a distinct (state, command) pair",
+               "arguments in every state at depth <= 2; plus the BadArgs table: 77 methods of importer, annotator, analyser, external variables, analyser-model queries, validator, printer, generator, parser "
+               "x {null, never added to a model, owner destroyed, one past the end, unknown name / key / id, entity of another model} (98 calls): outcome class, unchanged models and service state, service still working afterwards "
+               "(thorough: ASan + UBSan build); non-trivial = each scenario is a distinct (state, command) pair",
                ["TLC validates every logged step against ObjectModel!Apply and evaluates OwnershipInv in every observed state",
-                "projection through public getters (harness/drv_objmodel.cpp); structural look-alike is approximated by 'same name' in the non-child branch"])
+                "projection through public getters (harness/drv_objmodel.cpp); structural look-alike is approximated by 'same name' in the non-child branch",
+                "BadArgs: two rows are 'accepted' because the repository's tests pin them (Importer::replaceModel(nullptr, key), Annotator::assignId of a foreign import source)"])
